@@ -137,6 +137,11 @@ func insert(t *rt.Thread, c *rt.GoCont) (rt.Cont, error) {
 	if err != nil {
 		return nil, err
 	}
+	if tblLen == math.MaxInt64 {
+		// #t + 1 is not an integer: there is no position to append at, and no
+		// position to shift the last element to.
+		return nil, errors.New("position would wrap around")
+	}
 	if c.NArgs() >= 3 {
 		pos, err = c.IntArg(1)
 		if err != nil {
@@ -289,7 +294,7 @@ func remove(t *rt.Thread, c *rt.GoCont) (rt.Cont, error) {
 	}
 	var val rt.Value
 	switch {
-	case pos == tblLen || pos == tblLen+1:
+	case pos == tblLen || tblLen < math.MaxInt64 && pos == tblLen+1:
 		posVal := rt.IntValue(pos)
 		val, err = rt.Index(t, tblVal, posVal)
 		if err == nil {
